@@ -15,7 +15,7 @@ import sys
 from concurrent.futures import ThreadPoolExecutor
 
 VERIF = os.path.dirname(os.path.dirname(os.path.abspath(__file__)))
-WT = "/tmp/verif-refactor-eval-wt"
+WT = os.environ.get("REFAC_WT", "/tmp/verif-refactor-eval-wt")
 PROPS = ["C%02d" % i for i in range(1, 21)]
 
 
